@@ -170,7 +170,8 @@ Motion(d) == LET mo == Motions[Pick(HId(d), 4000, Len(Motions)) + 1]
 RotField(mo, F) == [g |-> MatVecI(mo.M, F.g), p0 |-> F.p0 * mo.n - VDot(MatVecI(mo.M, F.g), mo.t), den |-> mo.n]
 
 \* ---- one configuration ---------------------------------------------------------------------------------------
-Embedded(d) == Prop = "C18" /\ Dim(d) < 3
+\* C18: every grid of dimension < 3; C11: every second 2D grid (MPFA rotates the tensor into the plane of the grid)
+Embedded(d) == Dim(d) < 3 /\ (Prop = "C18" \/ (Prop = "C11" /\ Dim(d) = 2 /\ Pick(HId(d), 3999, 2) = 1))
 Config(d, ch, mask) ==
   LET kc == KCells(d, ch)
       mo == Motion(d)
